@@ -251,3 +251,43 @@ func jsonUnmarshal(bz []byte, v interface{}) error {
 }
 
 func bytesEqual(a, b []byte) bool { return string(a) == string(b) }
+
+// dropJSONKeys removes the named keys at any depth of a JSON document (sparse genesis sections).
+func dropJSONKeys(doc json.RawMessage, keys ...string) json.RawMessage {
+	if len(doc) == 0 {
+		return doc
+	}
+	var v interface{}
+	if err := json.Unmarshal(doc, &v); err != nil {
+		return doc
+	}
+	drop := map[string]bool{}
+	for _, k := range keys {
+		drop[k] = true
+	}
+	var walk func(x interface{}) interface{}
+	walk = func(x interface{}) interface{} {
+		switch t := x.(type) {
+		case map[string]interface{}:
+			for k := range t {
+				if drop[k] {
+					delete(t, k)
+				} else {
+					t[k] = walk(t[k])
+				}
+			}
+			return t
+		case []interface{}:
+			for i := range t {
+				t[i] = walk(t[i])
+			}
+			return t
+		}
+		return x
+	}
+	out, err := json.Marshal(walk(v))
+	if err != nil {
+		return doc
+	}
+	return out
+}
